@@ -364,10 +364,12 @@ theorem applyPatch_cases (file : List Line) (p0 : Patch) (o : ApplyOpts) (tty : 
 
 /-! ### what the applier needs from the locator -/
 
-/-- a location handed to `finishHunk` is usable: a natural number at or after `minLine`, the old side fits
-    in the file, and (for hunks with an old side) the placement is admissible -/
+/-- a location handed to `finishHunk` is usable: a natural number at or after `minLine` and not beyond the end of the
+    file, whatever of the old side lies beyond the end of the file is context (D99: fuzz may ignore context at the end of
+    a hunk which the file does not have), and (for hunks with an old side) the placement is admissible -/
 def LocOK (file : List Line) (h : Hunk) (iw : Bool) (maxFuzz : Int) (minLine : Nat) (loc : Option Location) : Prop :=
-  ∀ l, loc = some l → ∃ p : Nat, l.line = (p : Int) ∧ minLine ≤ p ∧ p + (oldOf h.lines).length ≤ file.length ∧
+  ∀ l, loc = some l → ∃ p : Nat, l.line = (p : Int) ∧ minLine ≤ p ∧ p ≤ file.length ∧
+    (∀ k, file.length ≤ p + k → delAt h.lines k = false) ∧
     (h.old.count ≠ 0 → ∃ f : Nat, admissibleB file h iw maxFuzz p f = true)
 
 /-- every result of `locateHunk` on a well-formed hunk is usable (C02 at the locator level) -/
@@ -400,10 +402,10 @@ theorem finishHunk_total {file : List Line} {o : ApplyOpts} {p : Patch} {s : ASt
     simp only [hb]
     exact ⟨_, rfl⟩
   | some l =>
-    obtain ⟨q, hq, _, hfit, _⟩ := hloc' l rfl
+    obtain ⟨q, hq, _, hle, htail, _⟩ := hloc' l rfl
     have hq' : l.line.toNat = q := by omega
     have hne : ¬ (q > s.cursor ∧ q > file.length) := by omega
-    simp only [hne, if_false, hD, writeHunkD_nil, hq', writeHunk_eq file h.lines q hwf.1 hfit]
+    simp only [hne, if_false, hD, writeHunkD_nil, hq', writeHunk_eq_min file h.lines q hwf.1 hle htail]
     exact ⟨_, rfl⟩
 
 
@@ -440,20 +442,20 @@ theorem finishHunk_spliceInv {file : List Line} {o : ApplyOpts} {p : Patch} {s s
   obtain ⟨pls, h1, h2, h3, h4, h5, h6⟩ := hinv
   rcases finishHunk_ok hs with ⟨l, emitted, cur, _, hl, _, hw, hout, hcur, _, happ, _, _⟩ |
       ⟨_, hout, hcur, _, happ, _, _⟩
-  · obtain ⟨q, hq, hge, hfit, hadm⟩ := hloc l hl
+  · obtain ⟨q, hq, hge, hfit, htail, hadm⟩ := hloc l hl
     have hq' : l.line.toNat = q := by omega
-    rw [hD, writeHunkD_nil, hq', writeHunk_eq file h.lines q hwf.1 hfit] at hw
+    rw [hD, writeHunkD_nil, hq', writeHunk_eq_min file h.lines q hwf.1 hfit htail] at hw
     cases hw
     rw [hq'] at hout
     refine ⟨pls ++ [(h, q)], ?_, ?_, ?_, ?_, ?_, ?_⟩
     · intro tail
       rw [hout, hcur, List.append_assoc pls, List.singleton_append, ← h1, spliceAt_cons]
-      simp only [List.append_assoc]
+      simp only [List.append_assoc, nextCursor]
     · intro tail ht
       rw [hcur] at ht
       rw [List.append_assoc pls, List.singleton_append]
       exact h2 _ (increasingB_cons.2 ⟨hge, hfit, ht⟩)
-    · rw [hcur]; exact hfit
+    · rw [hcur]; exact Nat.min_le_right _ _
     · rw [happ]; simp [h4]
     · intro hp hhp
       rcases List.mem_append.1 hhp with hhp | hhp
